@@ -162,8 +162,9 @@ def c03(r):
                     out.append(V("C03/exact", f"deme {d['id']} ({d['cls']}) reports {d['nev']} evaluations, the objective was invoked {calls[d['id']]} times for it "
                                               f"(consult #{i}, metaepoch {snap['m']})", event=i))
                     break
-            if sum(calls.values()) != e["total"] and not any(d["nev"] != calls[d["id"]] for d in snap["demes"]):
-                out.append(V("C03/total", f"total {e['total']} vs {sum(calls.values())} objective invocations", event=i))
+            mine = sum(v for k_, v in calls.items() if k_ is not None)    # invocations made on behalf of this tree's demes
+            if mine != e["total"] and not any(d["nev"] != calls[d["id"]] for d in snap["demes"]):
+                out.append(V("C03/total", f"tree.n_evaluations={e['total']} but the objective was invoked {mine} times for this tree's demes", event=i))
         if len(out) > 2:
             break
     return out
@@ -233,6 +234,14 @@ def c05(r):
             if seen_true is not None:
                 out.append(V("C05/sprout-after-gsc", f"deme {e['id']} sprouted after the global stop condition was observed true (event {seen_true})", event=i))
         elif k == "gsc":
+            g5 = spec["gsc"]
+            want = None
+            if g5["kind"] == "MetaepochLimit":
+                want = e["m"] >= g5["n"]
+            elif g5["kind"] == "SingularEval":
+                want = e["total"] >= g5["limit"] or e["m"] >= g5.get("cap", spec["cap_metaepochs"]) or e["total"] >= spec["cap_evals"]
+            if want is not None and bool(e["v"]) != bool(want) and e.get("arg_is_tree", True):
+                out.append(V("C05/verdict", f"{g5['kind']} answered {e['v']} with metaepoch_count={e['m']} and {e['total']} evaluations (limit {g5.get('n', g5.get('limit'))})", event=i))
             if e["v"] and seen_true is None:
                 seen_true = i
             if e["where"] == "tree":
@@ -730,9 +739,12 @@ def c18(r):
     calls_in_step = 0
     iters_in_step = 0
     step_info = None
+    round_seen_in_step = False
+    last_tree_consult = None
     for i, e in enumerate(ev):
         k = e["e"]
         if k == "round_b":
+            round_seen_in_step = True
             before = {d["id"]: d for d in e["snap"]["demes"]}
         elif k == "seeds":
             seeds = {d for d, inds in e["seeds"].items() if inds}     # a deme "sprouted" only if the round took at least one seed from it
@@ -759,6 +771,8 @@ def c18(r):
         elif k == "step":
             calls_in_step = 0
             iters_in_step = 0
+            round_seen_in_step = False
+            last_tree_consult = None
             snap = e["snap"]
             step_info = (i, any(d["active"] for d in snap["demes"]), [d["id"] for d in snap["demes"] if d["active"]],
                          all(d["hib"] for d in snap["demes"] if d["active"]))
@@ -770,6 +784,14 @@ def c18(r):
             calls_in_step += 1
         elif (k == "eng") or (k == "cma" and e["op"] == "ask") or k == "local" or (k == "run" and e["ph"] == "b"):
             iters_in_step += 1
+        elif k == "gsc" and e["where"] == "tree":
+            last_tree_consult = (i, e["v"])
+        elif k == "round_b":
+            round_seen_in_step = True
+        elif k == "stepend" and step_info is not None and last_tree_consult is not None and not last_tree_consult[1] and not round_seen_in_step \
+                and last_tree_consult[0] > step_info[0]:
+            out.append(V("C18/no-round", f"metaepoch {e['m']} ended with the global stop condition false but no sprouting round was held (rounds are what wakes hibernating demes)", event=i))
+            step_info = None
         elif k == "stepend" and step_info is not None:
             # liveness premise (DESIGN section 0): an engine iteration that ran but evaluated nothing (all-false mutation
             # mask, ...) is not a stall; a metaepoch in which NO engine iteration happened at all is
